@@ -59,7 +59,9 @@ KIND_TARGETS = [
     (kinds.meth_instance2.apply, {'Meth.apply'}), (kinds.Meth.two_required, {'Meth.two_required'}),
     (kinds.meth_instance.two_required, {'Meth.two_required'}),
     (kinds.Meth.cmake, {'Meth.cmake'}), (kinds.MethSub.cmake, {'Meth.cmake'}),
-] + [(f, {f.__name__}) for f in sigs.WIDE]
+] + [(f, {f.__name__}) for f in sigs.WIDE] + [
+    # function objects of one nested def / one lambda (one code object), different defaults
+    (f, {'variant'}) for f in kinds.DEFAULT_VARIANTS] + [(f, {'lambda_variant'}) for f in kinds.LAMBDA_VARIANTS]
 
 
 def plan(tier):
